@@ -91,6 +91,7 @@ type RuleResult struct {
 	Min       int          `json:"min_instances"`
 	Failed    int          `json:"failed"`
 	Notes     []string     `json:"notes,omitempty"`
+	Undecided string       `json:"undecided,omitempty"`
 	Obs       []Obligation `json:"-"`
 }
 
